@@ -1,6 +1,7 @@
 import Gsp.Model.Mz
 import Gsp.Lemmas.Rdf
 import Gsp.Lemmas.RdfChain
+import Gsp.Lemmas.SmtLeaves
 /-! C01 — merklized entries are exactly the document's facts. Theorems about M2 (`Gsp.Rdf`) and the merklizer wrapper. -/
 namespace Gsp.Props.C01
 open Gsp Gsp.Rdf
@@ -317,6 +318,50 @@ theorem node_sibling_positions (ds : Dataset) (rel : Rel) (h : newRelationship d
 theorem node_sibling_position_lt (ds : Dataset) (rel : Rel) (h : newRelationship ds = .ok rel)
     (k : QKey) (cm : ChildMap) (hm : (k, cm) ∈ rel.children) (c : Ref) (n : Nat) (hl : cm.lookup c = some n) : n < cm.length :=
   childMapOK_lookup_lt cm c n (newRelationship_children_ok ds rel h k cm hm).1 hl
+
+/-- **The leaves of the tree are exactly the entries**: after a successful merklization (default or caller-provided
+    empty tree) the list of leaves of the Merkle tree is a permutation of the list of (key hash, value hash) pairs of
+    the entries - nothing merged, nothing dropped, nothing invented - and so there are as many leaves as entries, and
+    as many as the dataset has literal- and IRI-valued quads. -/
+theorem leaves_are_the_entries (canon : String → Option String) (h : Hasher) (ds : Dataset) (mz : Mz.Merklizer)
+    (hm : Mz.merklize canon h ds = .ok mz) :
+    (Smt.leaves mz.tree).Perm (mz.kvs.map fun x => (x.k, x.v)) ∧
+    (Smt.leaves mz.tree).length = mz.kvs.length ∧
+    mz.kvs.length = (valueQuads (sortedGraphs ds)).length := by
+  unfold Mz.merklize at hm
+  split at hm
+  · simp at hm
+  · rename_i es hes
+    split at hm
+    · simp at hm
+    · rename_i kvs hkvs
+      split at hm
+      · simp at hm
+      · rename_i t ht
+        simp at hm; subst hm
+        have hp := Smt.leaves_addAll _ .empty t ht
+        simp only [Smt.leaves, List.append_nil] at hp
+        refine ⟨hp, by simpa using hp.length_eq, ?_⟩
+        -- one (key, value) pair per entry, one entry per literal/IRI quad
+        have hl : ∀ (es : List Entry) (kvs : List Mz.KV), Mz.kvOf h es = .ok kvs → kvs.length = es.length := by
+          intro es
+          induction es with
+          | nil => intro kvs hk; simp [Mz.kvOf] at hk; subst hk; rfl
+          | cons e rest ih =>
+            intro kvs hk
+            unfold Mz.kvOf at hk
+            split at hk
+            · rename_i k v _ _
+              cases hr : Mz.kvOf h rest with
+              | error x => simp [hr, Except.map] at hk
+              | ok r =>
+                simp [hr, Except.map] at hk
+                subst hk
+                simp [ih r hr]
+            · simp at hk
+            · simp at hk
+        rw [hl es kvs hkvs]
+        exact (entries_complete canon h.prime ds es hes).2
 
 -- non-vacuity: the documents probed against the real code
 deriving instance DecidableEq for Except
